@@ -7,15 +7,27 @@ from graphgen import *
 
 def prepare(case):
     d = case["in"]
+    if d.get("rt"):
+        r = d["rt"]
+        assert r["kw"] in ("oneOf", "anyOf") and len(r["members"]) >= 2 and all(k in RT_KINDS for _, k in r["members"])
+        assert len({n for n, _ in r["members"]} | {r["union"]}) == len(r["members"]) + 1
+        spec = rt_spec(d)
+        return {"op": case["op"], "in": dict(d, spec=spec, schemas=spec["components"]["schemas"], cfg={"all_schemas": True, "no_helpers": bool(d.get("no_helpers"))},
+                                             mode="client-mod", judges=["size", "rt"])}
     names = d["names"]
     edges = [tuple(e) for e in d["edges"]]
-    assert names and all(e[0] in names and e[2] in names and e[1] in KINDS + KINDS_EXTRA for e in edges) and not has_allof_cycle(names, edges)
+    assert names and all(e[0] in names and e[2] in names and e[1] in KINDS + KINDS_EXTRA + KINDS_UNION for e in edges) and not has_allof_cycle(names, edges)
     roots = d.get("roots") or names
     assert all(x in names for x in roots)
-    spec = graph_spec(names, edges, roots)
-    base = {"spec": spec, "cfg": {"all_schemas": True}, "mode": "client-mod", "judges": ["size", "default"]}
+    umix = d.get("umix") or {}
+    assert all(k in names and v in INLINE_MEMBERS for k, v in umix.items()) and d.get("inline", "string") in INLINE_MEMBERS
+    if umix or d.get("inline") or any(e[1] in KINDS_UNION for e in edges):
+        spec = graph_spec_u(names, edges, roots, umix, d.get("inline", "string"))
+    else:
+        spec = graph_spec(names, edges, roots)
+    base = {"spec": spec, "cfg": {"all_schemas": True, "no_helpers": bool(d.get("no_helpers"))}, "mode": "client-mod", "judges": ["size", "default"],
+            "schemas": spec["components"]["schemas"]}      # the schemas: model of the boxing rule, class predicates
     if case["op"] == "graph.analyze":
-        base["schemas"] = spec["components"]["schemas"]
         base["ops"] = selected_ops(spec)
     return {"op": case["op"], "in": dict(d, **base)}
 
@@ -64,6 +76,95 @@ def cases(ctx):
     return out
 
 
+def emit_case(names, edges, **opts):
+    d = {"names": list(names), "edges": [list(e) for e in edges]}
+    d.update({k: v for k, v in opts.items() if v})
+    return {"op": "graph.emit", "in": d}
+
+
+def overflow_shape(d):
+    return inline_union_cycle(graph_schemas_u(d["names"], [tuple(e) for e in d["edges"]], d.get("umix"), d.get("inline", "string")))
+
+
+def union_cases(ctx):
+    """unions that a recursive struct holds by value: inline unions in members / array items / map values whose
+    member refers back, named unions repeated inline, with and without helper constructors.  Returns (cases,
+    cases kept WITH helpers although the unchanged generator is known to die on them)."""
+    r = ctx.rng
+    out, risky = [], []
+
+    def add(names, edges, **opts):
+        c = emit_case(names, edges, **opts)
+        if not c["in"].get("no_helpers") and overflow_shape(c["in"]):
+            # known to kill the generator process (F10-3): a few are kept to pin the finding, the rest runs --no-helpers
+            if len(risky) < (2 if ctx.quick else 12) and r.random() < 0.3:
+                risky.append(c)
+            c = emit_case(names, edges, **dict(opts, no_helpers=True))
+        out.append(c)
+        if r.random() < 0.25:
+            out.append(dict(c, op="graph.analyze"))
+
+    for t in UNION_TEMPLATES:
+        for nh in (False, True):
+            add(t["names"], t["edges"], umix=t.get("umix"), inline=t.get("inline"), no_helpers=nh)
+    two = [(n, e) for n, e in two_node_union_graphs() if not has_allof_cycle(n, e)]
+    if ctx.quick:
+        two = r.sample(two, 150)
+    for names, edges in two:
+        for nh in ((False, True) if not ctx.quick else (r.random() < 0.5,)):
+            add(names, edges, no_helpers=nh, inline=r.choice([None, None, "object", "integer"]))
+    for _ in range(120 if ctx.quick else 2500):
+        names = ["A", "B", "C", "D", "E"][: r.randint(2, 5)]
+        if r.random() < 0.3 and len(names) > 2:
+            names = names[:-2] + r.sample(ODD_NAMES, 2)
+        edges = []
+        for _ in range(r.randint(2, 7)):
+            e = (r.choice(names), r.choice(KINDS_UNION if r.random() < 0.5 else KINDS + KINDS_EXTRA), r.choice(names))
+            if e not in edges:
+                edges.append(e)
+        if has_allof_cycle(names, edges) or not any(e[1] in KINDS_UNION for e in edges):
+            continue
+        unions = [n for n in names if any(e[0] == n and e[1] in ("oneOf", "anyOf") for e in edges)]
+        umix = {n: r.choice(list(INLINE_MEMBERS)) for n in unions if r.random() < 0.5}
+        add(names, edges, umix=umix, inline=r.choice([None, None, "object", "loose", "uuid"]), no_helpers=r.random() < 0.5)
+    return out, risky
+
+
+RT_NAMES = {"rec": ["Operation", "Branch"], "recArr": ["Group", "AllOf"], "recOpt": ["Chain", "Link"], "loose": ["Constant", "Literal"], "strict": ["Named", "Leaf"], "closed": ["Sealed", "Exact"]}
+
+
+def rt_cases(ctx):
+    """recursive unions `Expr = anyOf/oneOf[...]` whose members are listed in every order: specific recursive members
+    (required operator), permissive ones (nothing required), closed ones; the judge reads the variant order and the
+    members' (wire name, optional) lists from the EMITTED types"""
+    import itertools
+    r = ctx.rng
+    out = []
+    rec = ("rec", "recArr", "recOpt")
+    pairs = [p for p in itertools.permutations(RT_KINDS, 2) if p[0] in rec or p[1] in rec]
+    allc = []
+    for kinds in pairs:
+        for kw in ("anyOf", "oneOf"):
+            for nh in (False, True):
+                allc.append({"op": "graph.emit", "in": {"rt": {"union": "Expr", "kw": kw, "members": [[RT_NAMES[k][0], k] for k in kinds]}, "no_helpers": nh}})
+    out += r.sample(allc, 40) if ctx.quick else allc
+    for _ in range(25 if ctx.quick else 600):
+        n = r.randint(3, 4)
+        kinds = [r.choice(RT_KINDS) for _ in range(n)]
+        if not any(k in rec for k in kinds):
+            kinds[r.randrange(n)] = r.choice(rec)
+        seen = {}
+        members = []
+        for k in kinds:
+            i = seen.get(k, 0); seen[k] = i + 1
+            if i >= len(RT_NAMES[k]):
+                continue
+            members.append([RT_NAMES[k][i], k])
+        if len(members) >= 2:
+            out.append({"op": "graph.emit", "in": {"rt": {"union": r.choice(["Expr", "Node", "ZNode"]), "kw": r.choice(["anyOf", "oneOf"]), "members": members}, "no_helpers": r.random() < 0.5}})
+    return out
+
+
 def run(ctx):
     proofs_ok, driver_ok = ctx.build_lean(["Oas3Model.Props.C10"])
     if proofs_ok:
@@ -72,13 +173,23 @@ def run(ctx):
             ctx.leanchecker("Oas3Model.Props.C10")
     ctx.prepare = prepare
     if driver_ok and ctx.build_harness(["k_gen"]):
-        allc = vlib_corpus(ctx) + cases(ctx)
+        ucases, risky = union_cases(ctx)
+        corpus = vlib_corpus(ctx)
+        risky = [c for c in corpus if c["op"] == "graph.emit" and not c["in"].get("rt") and not c["in"].get("no_helpers") and overflow_shape(c["in"])] + risky
+        risky = [c for c in risky if not c["in"].get("rt")]
+        allc = [c for c in corpus if c not in risky] + ucases + rt_cases(ctx) + cases(ctx)
         B = 500
         for i in range(0, len(allc), B):
             ctx.classify(ctx.evaluate(allc[i:i + B]), tie="K+E")
             if len(ctx.violations) >= 3:
                 break
+        # documents on which the generator process itself dies are evaluated one by one (a dead process takes the
+        # rest of its batch with it)
+        for c in risky:
+            if len(ctx.violations) >= 3:
+                break
+            ctx.classify(ctx.evaluate([c]), tie="K+E")
     return ctx.finish(
         checker_cmd="lake build Oas3Model.Props.C10 && #print axioms on every theorem" + ("" if ctx.quick else " && leanchecker"),
-        trusted_base=vlib.TRUSTED_BASE + ["the by-value / Box / Vec / map / Option reading of emitted field types (harness/src/k_graph.rs::walk)", "rustc's own E0072 check is not run in the quick tier", "better_default's Default expansion: struct -> every field without #[default(..)], enum -> the #[default] variant's payload"],
-        rule="all labelled digraphs on 2 schemas over the 8 edge kinds without allOf cycles (every one thorough; 300 sampled quick), 3-schema graphs with <=3 edges (20000 sampled thorough / 250 quick), random graphs on 3-6 schemas; generated with --all-schemas; the emitted types' by-value containment graph and Default-construction graph must be acyclic (cycle test = the proved `cyclic`); SchemaRegistry's cyclic set compared with the model; non-trivial = >=1 type; distinct by input hash")
+        trusted_base=vlib.TRUSTED_BASE + ["the by-value / Box / Vec / map / Option reading of emitted field types (harness/src/k_graph.rs::walk)", "rustc's own E0072 check is not run in the quick tier", "serde's untagged decode = first variant in declaration order whose non-optional members are present (Model/Graph.lean UVariant), documents abstracted to key sets", "better_default's Default expansion: struct -> every field without #[default(..)], enum -> the #[default] variant's payload"],
+        rule="all labelled digraphs on 2 schemas over the 8 edge kinds without allOf cycles (every one thorough; 300 sampled quick), 3-schema graphs with <=3 edges (20000 sampled thorough / 250 quick), random graphs on 3-6 schemas; unions held by value: two-schema graphs with one inline-union / structural-copy edge (9 kinds, + one further edge; all: thorough, 150: quick), 8 named documents, random 2-5 schema mixes, with and without --no-helpers; recursive unions anyOf/oneOf over 6 member kinds in every order of two and random orders of 3-4: the full document of every member must survive the first-accepting-variant decode under the emitted variant order; generated with --all-schemas; the emitted types' by-value containment graph and Default-construction graph must be acyclic (cycle test = the proved `cyclic`); SchemaRegistry's cyclic set compared with the model; non-trivial = >=1 type; distinct by input hash")
